@@ -1,5 +1,6 @@
 from __future__ import annotations
 
+import glob
 import json
 import logging
 import os
@@ -206,7 +207,8 @@ class LangServer:
         # The root is the default source directory, used only if none is configured
         default_source_dirs = not self.source_dirs
         if default_source_dirs:
-            self.source_dirs.add(self.root_path)
+            # a literal path, not a glob pattern as the configured ones
+            self.source_dirs.add(glob.escape(self.root_path))
         update_recursion_limit(self.recursion_limit)
         self._resolve_globs_in_paths()
         self._config_logger(request)
